@@ -758,6 +758,11 @@ class Node:
         if new_parent is self or new_parent.is_descendant_of(self):
             raise ValueError(f"Cannot move {self} below itself or its descendants")
 
+        if new_parent is not self._parent:
+            for n in new_parent.children:
+                if n._data_id == self._data_id:
+                    raise UniqueConstraintError("Node.data already exists in parent")
+
         self._parent._children.remove(self)  # type: ignore
         if not self._parent._children:  # store None instead of `[]`
             self._parent._children = None
